@@ -17,8 +17,8 @@ prop("C02", "c02",
      "specificity, first rule in rule-set order whose condition holds, backtracking only if enabled for the failed "
      "expression). A case is non-trivial when >=2 expressions match the path or a failing condition forces a "
      "backtracking decision; distinct by (rule sets, method, path).",
-     [dict(run="^TestRepositoryMatchesModel$", quick=1500, thorough=96000, shards_thorough=8),
-      dict(run="^TestTreeMatchesModel$", quick=4000, thorough=320000, shards_thorough=6),
+     [dict(run="^TestRepositoryMatchesModel$", quick=4000, thorough=96000, shards_thorough=8),
+      dict(run="^TestTreeMatchesModel$", quick=20000, thorough=320000, shards_thorough=6),
       dict(run="^TestTreeExhaustiveSmall$", quick=1, thorough=1, shards_thorough=1)],
      ["glob/regex libraries and net/url parsing are trusted", "conditions are method conditions only (path_params are C03)"],
      level="Randomised generated search (rule sets x load orders x paths) against an independent reference matcher plus "
@@ -37,7 +37,7 @@ prop("C01", "c01",
      "necessary condition for a positive answer; observed positive answer must imply it, and a failed pipeline must "
      "yield status >= 300 / denied / gRPC error with the upstream hit counter unchanged. Non-trivial: a step failed, was "
      "skipped, had an unevaluable condition or panicked, or an error handler ran; distinct by the full scenario string.",
-     [dict(run="^TestPositiveAnswerOnlyAfterCompletePipeline$", quick=1500, thorough=72000, shards_thorough=12)],
+     [dict(run="^TestPositiveAnswerOnlyAfterCompletePipeline$", quick=2500, thorough=72000, shards_thorough=12)],
      ["which authenticator failure permits fallback is C04's subject: the model only requires that some authenticator "
       "succeeded and nothing executed before it panicked", "redirect codes are 3xx, status overrides left at defaults (C12)"],
      level="Randomised generated search over pipelines x outcome vectors x error pipelines x entry points on the fully "
@@ -56,7 +56,7 @@ prop("C03", "c03",
      "negations, every path_params expression on the decoded captured value, captures = named wildcards only, decoded per "
      "setting) combined with the C02 reference lookup. Non-trivial: >=2 hosts, a negated method, path_params on a free "
      "wildcard, or an encoded octet in the path; distinct by (rules, request).",
-     [dict(run="^TestMatchConditionsAndCaptures$", quick=2500, thorough=160000, shards_thorough=12)],
+     [dict(run="^TestMatchConditionsAndCaptures$", quick=5000, thorough=160000, shards_thorough=12)],
      ["gobwas/glob and regexp evaluate single expressions correctly (the same libraries are used by the model)",
       "method lists consisting only of negations, or whose result is empty, are don't-care",
       "encoded slashes under setting off are C08's subject; literal segments are sent unencoded (re-encoding is C08)"],
@@ -74,7 +74,7 @@ prop("C06", "c06",
      "GET/POST) equal those of a fresh repository into which the model's current versions are loaded once; a change is "
      "expected to apply iff that fresh load succeeds; a rejected change must return an error and leave all probe answers "
      "unchanged. Non-trivial: the history contains an update or delete; distinct by the canonical history string.",
-     [dict(run="^TestHistoryEqualsFreshLoad$", quick=1500, thorough=48000, shards_thorough=12)],
+     [dict(run="^TestHistoryEqualsFreshLoad$", quick=3000, thorough=48000, shards_thorough=12)],
      ["rules sharing an expression carry the same backtracking flag (undefined otherwise)",
       "add only for absent sources, update/delete only for existing ones (what providers do)"],
      level="Stateful randomised search over rule-set histories with a differential oracle against a freshly loaded "
@@ -91,8 +91,8 @@ prop("C08", "c08",
      "must be 400 (404 only when no rule is applicable at all) and the upstream hit counter stays 0; with no_decode the "
      "captured value and the upstream request line keep the encoded slash, with on both contain '/'. Every case is "
      "non-trivial (a re-encoding that changes the path / an encoded slash); distinct by (rules, entry, base, variant).",
-     [dict(run="^TestReencodingIsInvisible$", quick=1200, thorough=70000, shards_thorough=8),
-      dict(run="^TestEncodedSlashHandling$", quick=1200, thorough=70000, shards_thorough=8)],
+     [dict(run="^TestReencodingIsInvisible$", quick=2500, thorough=70000, shards_thorough=8),
+      dict(run="^TestEncodedSlashHandling$", quick=2500, thorough=70000, shards_thorough=8)],
      ["rule literals consist of unreserved characters only", "Go's net/http accepts the generated request lines"],
      level="Randomised generated search with a metamorphic oracle (RFC 3986 6.2.2.2 equivalence) and a reference lookup for "
            "the encoded-slash settings on the assembled decision and proxy services; bounded exploration.",
@@ -109,7 +109,7 @@ prop("C14", "c14",
      "a request failing the rule's own conditions in front of a less specific always-matching rule (effective backtracking). "
      "Non-trivial: a stage is inherited, the rule is expected to be rejected, or backtracking is set without default rule.",
      [dict(run="^TestStagewiseInheritanceExhaustive$", quick=1, thorough=1, shards_thorough=1),
-      dict(run="^TestOrderingsAndMalformedRules$", quick=1500, thorough=300000, shards_thorough=8)],
+      dict(run="^TestOrderingsAndMalformedRules$", quick=4000, thorough=300000, shards_thorough=8)],
      ["rule sets whose execute list is empty are rejected by rule-set validation before the factory and are not generated"],
      level="Complete enumeration of the stage-inheritance configuration space plus randomised search over orderings and "
            "malformed references, observed behaviourally through the trace of executed probe mechanisms on the assembled service.",
@@ -127,7 +127,7 @@ prop("C04", "c04",
      "the subject, 'no usable credentials' continues, anything else continues only with opt-in. Compared with the subject id "
      "echoed by a header finalizer / the failure status of the decision service. Non-trivial: chain length >= 2 and the "
      "first authenticator does not succeed; distinct by (types, flags, credential classes).",
-     [dict(run="^TestFallbackOnlyOnMissingCredentialsOrOptIn$", quick=1500, thorough=240000, shards_thorough=10)],
+     [dict(run="^TestFallbackOnlyOnMissingCredentialsOrOptIn$", quick=6000, thorough=240000, shards_thorough=10)],
      ["a bearer token that is not in JWT format is 'no usable credential' for the jwt authenticator (documented)",
       "a rejecting identity endpoint (401) surfaces as communication error for the generic authenticator: no fallback without opt-in either way"],
      level="Randomised generated search over authenticator chains x credential classes on the assembled decision service "
@@ -151,7 +151,7 @@ prop("C05", "c05",
      "assertions, header, mutation kinds).",
      [dict(run="^TestOnlyValidTokensYieldSubjects$", quick=2000, thorough=120000, shards_thorough=12),
       dict(run="^TestRequiredScopesAreMatched$", quick=1500, thorough=80000, shards_thorough=4),
-      dict(run="^TestKeysComeFromTheEndpointOfTheTokensIssuer$", quick=600, thorough=20000, shards_thorough=4),
+      dict(run="^TestKeysComeFromTheEndpointOfTheTokensIssuer$", quick=1000, thorough=20000, shards_thorough=4),
       dict(run="^FuzzTokenBytes$", fuzz=True, quick=1, thorough=1, shards_thorough=1, fuzztime_thorough=240, fuzz_workers=6)],
      ["tokens without exp have no upper validity bound (accepted by the reference)", "certificate validation of JWKs is not part of the statement (C10 covers certificate expiry for caching)"],
      level="Randomised generated search over tokens x key sets x assertion configurations on the assembled decision service "
@@ -273,7 +273,7 @@ prop("C11", "c11",
      "differential) status and upstream headers of B with the cache on (after A) equal those with the cache off; (effectiveness) "
      "8 identical executions of A cause exactly one remote call. Non-trivial: >= 2 map entries in headers/values, or a "
      "non-equal pair; distinct by case.",
-     [dict(run="^TestCacheNeverChangesADecision$", quick=500, thorough=40000, shards_thorough=10)],
+     [dict(run="^TestCacheNeverChangesADecision$", quick=1500, thorough=40000, shards_thorough=10)],
      ["the remote systems are deterministic functions of what they receive", "Go randomises map iteration per range: 8 repetitions expose order-dependent keys with high probability"],
      level="Randomised generated search with a cache-on/cache-off differential oracle and a remote call-count oracle; bounded exploration.",
      note="Trusted: the recording cache (Redis semantics) and the deterministic scripted remote side.",
@@ -335,7 +335,7 @@ prop("C17", "c17",
      "first observed behaviour is a violation. Every generated case is non-trivial (>= 2 variants); distinct by (mechanism, "
      "target, load order, execution order).",
      [dict(run="^TestVariantsAreIndependentOfEachOther$", quick=250, thorough=6250, shards_thorough=10),
-      dict(run="^TestExecutionDoesNotChangeMechanisms$", quick=150, thorough=2500, shards_thorough=4),
+      dict(run="^TestExecutionDoesNotChangeMechanisms$", quick=300, thorough=2500, shards_thorough=4),
       dict(run="^TestConcurrentExecutionIsRaceFree$", quick=1, thorough=1, shards_thorough=2, race=True)],
      ["the remote side is a deterministic function of what it receives", "mechanism caches are off (no cache in the request context) so executions do not influence each other through the cache"],
      level="Randomised generated search over creation/execution orders with a metamorphic oracle, plus a race-detector stress "
@@ -385,10 +385,10 @@ prop("C19", "c19",
      "watcher goroutine or the process); after a rejected reload the previously loaded keys/rules still work; every request "
      "gets an HTTP answer and the next valid request is served with 200. Non-trivial: near-valid inputs (<= 3 edits) and "
      "every distinct hostile input; distinct by input.",
-     [dict(run="^TestMalformedRuleSetsAreRejectedNotFatal$", quick=1500, thorough=15000, shards_thorough=8),
-      dict(run="^TestKeyStoreReloadsAreRejectedNotFatal$", quick=600, thorough=6000, shards_thorough=4),
+     [dict(run="^TestMalformedRuleSetsAreRejectedNotFatal$", quick=3000, thorough=15000, shards_thorough=8),
+      dict(run="^TestKeyStoreReloadsAreRejectedNotFatal$", quick=1500, thorough=6000, shards_thorough=4),
       dict(run="^TestKeyStoreTruncationExhaustive$", quick=1, thorough=1, shards_thorough=1),
-      dict(run="^TestHostileRemoteResponsesYieldErrorResponses$", quick=800, thorough=8000, shards_thorough=6),
+      dict(run="^TestHostileRemoteResponsesYieldErrorResponses$", quick=2000, thorough=8000, shards_thorough=6),
       dict(run="^TestRawRequestsDoNotStopTheService$", quick=150, thorough=1500, shards_thorough=2),
       dict(run="^FuzzRuleSetBytes$", fuzz=True, quick=1, thorough=1, shards_thorough=1, fuzztime_thorough=240, fuzz_workers=6),
       dict(run="^FuzzKeyStoreBytes$", fuzz=True, quick=1, thorough=1, shards_thorough=1, fuzztime_thorough=240, fuzz_workers=4),
